@@ -163,3 +163,58 @@ def expat_read(doc, attr):
     except xml.parsers.expat.ExpatError:
         return False, ""
     return True, "".join(got)
+
+
+def spec_readers_vs_external(cx, strings):
+    """Guards the Lean spec readers themselves: XmlSpec.read / JsonSpec.readToken against expat and Python's json on
+    printed text AND on raw (unescaped, possibly ill-formed) text."""
+    rng = cx.sub_rng("specguard")
+    reqs, meta = [], []
+    pool = [s for s in strings if len(s) <= 24]
+    rng.shuffle(pool)
+    frag = [b"&lt;", b"&gt;", b"&amp;", b"&apos;", b"&quot;", b"&#13;", b"&#xD;", b"&#x9;", b"&#10;", b"&#65;", b"&#x20AC;", b"&#x1F600;", b"&#0;", b"&#xFFFE;",
+            b"&#xD800;", b"&foo;", b"&", b"<", b">", b"]]>", b"]]", b"\r", b"\r\n", b"\n", b"\t", b'"', b"'", b"a", b" ", b"\xc3\xa9"]
+    cases = pool[:cx.n(1500, 20000)]
+    for _ in range(cx.n(1500, 20000)):
+        cases.append(b"".join(rng.choice(frag) for _ in range(rng.randrange(1, 5))))
+    for i, s in enumerate(cases):
+        if b"\x00" in s:
+            continue
+        for attr in (0, 1):
+            reqs.append("%d text specxml %d %s" % (len(reqs), attr, hexs(s)))
+            meta.append(("xml", attr, s))
+    jfrag = [b'\\"', b"\\\\", b"\\/", b"\\b", b"\\f", b"\\n", b"\\r", b"\\t", b"\\u0041", b"\\u00e9", b"\\u20AC", b"\\uD83D\\uDE00", b"\\uD800", b"\\uDC00", b"\\u00g1",
+             b"\\x", b"a", b" ", b"\t", b"\n", b"\xc3\xa9", b"\\u0000", b"\\u001f", b"\x7f"]
+    for _ in range(cx.n(2000, 30000)):
+        s = b'"' + b"".join(rng.choice(jfrag) for _ in range(rng.randrange(0, 5))) + b'"'
+        reqs.append("%d text specjson %s" % (len(reqs), hexs(s)))
+        meta.append(("json", 0, s))
+    rm = cx.run_model(reqs)
+    for i, (fmt, attr, s) in enumerate(meta):
+        r = rm.get(str(i), ["err", "NoReply"])
+        if fmt == "xml":
+            try:
+                if any(ord(ch) in (0xFFFE, 0xFFFF) for ch in s.decode("utf-8")):
+                    continue   # multi-byte non-Chars: not judged by the byte-level reader either
+            except UnicodeDecodeError:
+                continue   # the byte-level spec reader does not judge UTF-8 well-formedness
+            doc = (b'<a v="' + s + b'"/>') if attr else (b"<a>" + s + b"</a>")
+            ok, got = expat_read(doc, attr)
+            mine = (r[0] == "ok", unhex(r[1]) if r[0] == "ok" else b"")
+            theirs = (ok, got.encode("utf-8", "surrogatepass") if ok else b"")
+            cx.count(("specxml", attr, s), True, "text:specxml-vs-expat:" + ("ok" if ok else "reject"))
+            if mine != theirs:
+                cx.disagree("text-spec", reqs[i], ["expat", str(ok), hexs(theirs[1])], r)
+        else:
+            try:
+                got = json.loads(s.decode("utf-8"))
+                ok = isinstance(got, str)
+                gb = got.encode("utf-8", "surrogatepass") if ok else b""
+                if ok and any(0xD800 <= ord(ch) <= 0xDFFF for ch in got):
+                    ok, gb = False, b""     # Python keeps lone surrogates; RFC 8259 strings of scalar values only
+            except Exception:
+                ok, gb = False, b""
+            mine = (r[0] == "ok", unhex(r[1]) if r[0] == "ok" else b"")
+            cx.count(("specjson", s), True, "text:specjson-vs-python:" + ("ok" if ok else "reject"))
+            if mine != (ok, gb):
+                cx.disagree("text-spec", reqs[i], ["pyjson", str(ok), hexs(gb)], r)
